@@ -18,7 +18,7 @@ MANIFEST = {
                 "back-quote alphabet, and fragments spliced after 'select a from t where b = '); TLC checks the "
                 "automaton's consistency properties and emits each text with every '?' classified by lexical context "
                 "(Markers = those read in context normal). Every emitted text is given to the real CalcParams and, "
-                "through ExecuteCommand, to COM_STMT_PREPARE; a reported count or offset list different from Markers is "
+                "as a real packet through the proxy's packet reader and command dispatch, to COM_STMT_PREPARE; a reported count or offset list different from Markers is "
                 "a deviation, classified by the context of the misjudged '?' and by which earlier construct the "
                 "implementation is known to misread. The repository scanner is cross-checked on every well-formed text.",
         "design_ref": "DESIGN.md section 5 C14, section 4.1 SqlLex",
@@ -34,7 +34,10 @@ MANIFEST = {
 FULL = ["a", "?", "'", '"', "`", "\\", "-", " ", "#", "/", "*", "\n"]
 STRINGS = ["a", "?", "'", '"', "\\"]
 COMMENTS = ["?", "'", "`", "-", " ", "#", "/", "*", "\n"]
-FRAGS = ["?", "'q'", '"q"', "`c`", "'\\''", "''", " -- ", "#", "/*", "*/", "\n", " and c = ", "a", "'", "\\"]
+# literals in every escape form (escaped quote, escaped backslash directly before the closing quote, doubled quote, the
+# other quote character inside), comment openers / closers, plain tokens
+FRAGS = ["?", "'q'", '"q"', "`c`", "'\\''", "'\\\\'", '"\\\\"', "''''", "'\"'", "''", " -- ", "#", "/*", "*/", "\n",
+         " and c = ", "a", "'", "\\"]
 PREFIX = "select a from t where b = "
 
 XCHECK = ["parser/sqllex_test.go"]
@@ -68,14 +71,14 @@ def run(ctx):
     plans = [dict(words=FULL, maxlen=4, sanity=True, label="full alphabet"),
              dict(words=STRINGS, maxlen=7, label="quotes and backslashes"),
              dict(words=COMMENTS, maxlen=5, label="comments and back-quotes"),
-             dict(words=FRAGS, maxlen=24, maxwords=4, prefix=PREFIX, label="fragments spliced into a statement")]
+             dict(words=FRAGS, maxlen=28, maxwords=4, prefix=PREFIX, label="fragments spliced into a statement")]
     if thorough:
         plans = [dict(words=FULL, maxlen=5, label="full alphabet"),
                  dict(words=FULL, maxlen=3, sanity=True, label="full alphabet, automaton sanity invariants"),
                  dict(words=STRINGS, maxlen=8, label="quotes and backslashes"),
                  dict(words=COMMENTS, maxlen=6, label="comments and back-quotes"),
                  dict(words=FRAGS, maxlen=30, maxwords=4, prefix=PREFIX, label="fragments spliced into a statement"),
-                 dict(words=FRAGS[:9], maxlen=30, maxwords=5, prefix=PREFIX, label="fragments spliced into a statement, 5 fragments")]
+                 dict(words=FRAGS[:10], maxlen=34, maxwords=5, prefix=PREFIX, label="fragments spliced into a statement, 5 fragments")]
     for p in plans:
         r = _stmt.sqllex_generate(ctx, cf, p["words"], p["maxlen"], prefix=p.get("prefix", ""), sanity=p.get("sanity", False),
                                   maxwords=p.get("maxwords"), label=p["label"], keep=keep)
